@@ -1,19 +1,63 @@
-"""C10 - function algebra and transformations evaluate and differentiate exactly."""
+"""C10 - function algebra and transformations evaluate and differentiate exactly.
+
+Harnesses: ``algebra`` (sums/products/quotients/negation/offset/scaling of uninterpreted functions), ``linear`` (MDOLinearFunction and
+its -f, offset, restrict, normalize, f+-g, c*f), ``quadratic`` (MDOQuadraticFunction), ``restriction`` (FunctionRestriction),
+``composite`` (LinearCompositeFunction), ``concatenate`` (Concatenate), ``taylor`` (compute_linear/quadratic_approximation),
+``aggregation`` (aggregation/core.py and the aggregate_* wrappers).  All oracles are explicit scalar formulas written here.
+"""
 from __future__ import annotations
 
+import sys
+
 import numpy as np
+
+sys.set_int_max_str_digits(0)  # solver models of non-linear queries may hold rationals with thousands of digits
 
 from harness.common import _plain, _py, check_array, check_log_untouched, elems, uf_function
 
 META = dict(
     bounds=dict(
-        quick="operand dims (m,n) in {1,2,3}x{1,2,3} for single operations; depth-2 expression trees over {+,-,*,/,neg,offset,scale} for (m,n) in {(1,2),(2,2),(2,3)}",
-        thorough="same operand dims; all depth-2 trees for (m,n) in {1,2,3}^2",
+        quick="algebra: operand dims (m,n) in {1,2,3}x{1,2,3} for single operations; depth-2 expression trees over {+,-,*,/,neg,offset,scale} for "
+              "(m,n) in {(1,2),(2,2),(2,3)}.  linear/restriction/taylor/concatenate/composite: output and input sizes in {1,2,3} (m == n "
+              "included), every set of frozen inputs leaving at least one active input (pairs in one non-monotone order), design spaces with "
+              "bounded/unbounded/half-bounded/equal-bounds components and symbolic bounds, symbolic coefficients, expansion points, Hessian "
+              "approximations (symmetric symbolic; non-symmetric symbolic for n = 2, one fixed non-symmetric matrix for n = 3), two evaluation "
+              "points.  aggregation: m in {2,3} constraints, n in {1,2,3} variables, scale in {absent, symbolic s > 0, 2, vector}, indices in "
+              "{None, [1] (m=2), [2,0] (m=3)}, rho in {2, 64, 100}, raw functions of aggregation/core.py (values, total and partial "
+              "Jacobians) and the aggregate_* wrappers on an uninterpreted constraint function",
+        thorough="same; all depth-2 algebra trees for (m,n) in {1,2,3}^2; frozen pairs in both orders; all 27 (m,k,n) of the vector-valued "
+                 "linear composition; more index subsets and (m,1) shapes for the aggregations",
     ),
-    outside=["sparse Jacobians (scipy.sparse cannot hold symbols)", "string expressions / names of the composed functions",
-             "rounding error of float64", "complex inputs"],
-    stubs=["none for the algebra part"],
-    assumptions=["operand functions are uninterpreted symbols F_i(x), their Jacobians independent symbols dF_ij(x); denominators assumed non-zero"],
+    outside=["sparse Jacobians / sparse coefficient matrices (scipy.sparse cannot hold symbols)", "string expressions / names of the composed functions",
+             "rounding error of float64", "complex inputs",
+             "freezing every input (restrict / FunctionRestriction raise IndexError on the empty array of active indexes): degenerate, not claimed",
+             "MDOLinearFunction built with expr=... and without input_names has no input names (restrict then raises IndexError): names are not claimed",
+             "ConvexLinearApprox: its docstring gives no formula and the formula pinned by gemseo's own test (reciprocal term c/(x - x0)) is not the "
+             "CONLIN approximation of the literature (c (1/x - 1/x0)): no unambiguous definition to check against, left out",
+             "ConstraintAggregation discipline (its partial Jacobians are the compute_partial_* functions checked here; MAX cannot be linearized: "
+             "TypeError, see tools/repro_C10.py)",
+             "compute_quadratic_approximation of a function returning (1,) arrays and (1,n) Jacobians ('must be scalar-valued': number + 1-D gradient only)",
+             "sum-of-squares aggregations with a scale: 'scale multiplies the constraints' is ambiguous, sum s_i g_i^2 (the code) and sum (s_i g_i)^2 "
+             "are both accepted, the Jacobian must be the derivative of the accepted reading",
+             "vector scale shorter/longer than the aggregated subset; non-positive scales; ties of the maximum for the Jacobian of max",
+             "KS bounds for rho = 100 (1.0/rho is not exact in float64 and float arithmetic is modelled as exact: only rho = 2, 64); "
+             "'IKS <= max' (not documented by gemseo; z3 needs > 10 s): dropped",
+             "total Jacobian of IKS with a vector scale and as many constraints as variables (refuted on the current code by the column/row defect, "
+             "but z3 finds no counterexample within the budget): configuration left out until the defect is repaired",
+             "'operands untouched' for the aggregations is stated for scale absent, 2 and [2,3,1/4] only (with a symbolic scale the refutation on the "
+             "current code is non-linear and z3 answers unknown)"],
+    stubs=["none for the algebra part",
+           "function_restriction.empty -> object-dtype array (value-preserving storage)",
+           "aggregation/core.py: math.log -> the engine's uninterpreted log (ground axioms), zeros -> object-dtype zeros",
+           "MDOLinearFunction._generate_1d_expr and MDOQuadraticFunction.__build_expression -> constant string in the normalize/taylor harnesses "
+           "(pretty-printing forks on the sign of every coefficient; no effect on values)",
+           "design-space bounds written into Variable.__dict__ (harness.common.build_space)"],
+    assumptions=["operand functions are uninterpreted symbols F_i(x), their Jacobians independent symbols dF_ij(x); denominators assumed non-zero",
+                 "design-space bounds l < u (or l == u for kind E)",
+                 "aggregations: scale > 0; a vector scale has one entry per aggregated constraint (after the selection by indices)",
+                 "KS bounds: besides the engine's ground exp/log axioms, two ground instances of identities of the real logarithm are assumed: "
+                 "log(exp(rho)) == rho and log(k exp(rho)) == log(k) + rho (k = number of aggregated constraints)",
+                 "the oracle of the KS/IKS weights uses the shift exp(rho (g_i + 1 - max g)) of the implementation (the weights are invariant under the shift)"],
 )
 
 OPS_BIN_FUNC = ["add", "sub", "mul", "div"]
@@ -133,6 +177,601 @@ def h_algebra(ctx, cfg):
     check_array(ctx, "x-untouched", x, xs0)
 
 
+# ------------------------------------------------------------------------------------------------
+# helpers of the transformation harnesses
+# ------------------------------------------------------------------------------------------------
+def _check_vec(ctx, label, got, exp):
+    """A vector of len(exp) components; a function with one output may return a scalar, a 0-d or a (1,) array."""
+    if len(exp) == 1 and np.shape(got) in ((), (1,)):
+        ctx.check(f"{label}[0]", ctx.eq(elems(got)[0], exp[0]))
+    else:
+        check_array(ctx, label, got, exp)
+
+
+def _check_jac(ctx, label, got, exp, m):
+    """(m, n) Jacobian; for m == 1 the 1-D gradient (n,) is accepted as well (both conventions exist in gemseo)."""
+    if m == 1 and np.ndim(got) == 1:
+        check_array(ctx, label, got, exp[0])
+    else:
+        check_array(ctx, label, got, exp)
+
+
+def _check_flat(ctx, label, got, exp):
+    """Same number of elements and same elements in C order (shape conventions of scalar-valued functions are not asserted)."""
+    g = elems(got)
+    if len(g) != len(exp):
+        ctx.check(f"{label}:size {len(g)} == {len(exp)}", ctx.false())
+        return
+    for i, (a, b) in enumerate(zip(g, exp)):
+        ctx.check(f"{label}[{i}]", ctx.eq(a, b))
+
+
+def _no_expr_stub(ctx):
+    """MDOLinearFunction builds a pretty-printed expression from the signs of its coefficients: disabled (no effect on values)."""
+    from gemseo.core.mdo_functions.mdo_linear_function import MDOLinearFunction
+
+    ctx.patch(MDOLinearFunction, "_generate_1d_expr", lambda self, input_names: "linear")
+
+
+def _no_quad_expr_stub(ctx):
+    """Same for the expression string of MDOQuadraticFunction (it forks on the signs of the linear and constant coefficients)."""
+    from gemseo.core.mdo_functions.mdo_quadratic_function import MDOQuadraticFunction
+
+    ctx.patch(MDOQuadraticFunction, "_MDOQuadraticFunction__build_expression", classmethod(lambda cls, *a, **k: "quadratic"))
+
+
+def _lin(ctx, name, m, n):
+    """A linear function with symbolic coefficients; returns (function, A, b, rows of A, entries of b)."""
+    from gemseo.core.mdo_functions.mdo_linear_function import MDOLinearFunction
+
+    A = ctx.matrix(f"{name}A", m, n)
+    b = ctx.reals(f"{name}b", m)
+    # expr: the automatic expression string forks on the sign of every coefficient; input_names: not generated when expr is given
+    # (restrict() then raises IndexError on the empty list of names: names are outside this claim)
+    f = MDOLinearFunction(A, name, value_at_zero=b, expr=f"{name}A.x+{name}b", input_names=[f"x{j}" for j in range(n)])
+    Ael = [[ctx.real(f"{name}A{i}_{j}") for j in range(n)] for i in range(m)]
+    bel = [ctx.real(f"{name}b{i}") for i in range(m)]
+    return f, A, b, Ael, bel
+
+
+def _lin_val(Ael, bel, xs):
+    return [sum((Ael[i][j] * xs[j] for j in range(len(xs))), bel[i]) for i in range(len(bel))]
+
+
+def h_linear(ctx, cfg):
+    """MDOLinearFunction: evaluation, Jacobian and the derived functions (-f, offset, restrict, normalize, f+-g, c*f)."""
+    m, n, op = cfg["m"], cfg["n"], cfg["op"]
+    f, A, b, Ael, bel = _lin(ctx, "f", m, n)
+    x = ctx.reals("x", n)
+    xs = [ctx.real(f"x{i}") for i in range(n)]
+    y = ctx.reals("y", n)
+    ys = [ctx.real(f"y{i}") for i in range(n)]
+
+    def check(label, fn, pt, val, jac, mm=m):
+        v = fn.evaluate(pt)
+        ctx.observe(f"{label}:value", np.ravel(v))
+        _check_vec(ctx, f"{label}:value", v, val)
+        J = fn.jac(pt)
+        ctx.observe(f"{label}:jac", np.ravel(J))
+        if mm == 1:  # documented: the gradient of a scalar linear function is a 1-D array
+            check_array(ctx, f"{label}:jac", J, jac[0])
+        else:
+            check_array(ctx, f"{label}:jac", J, jac)
+
+    if op == "eval":
+        check("f(x)", f, x, _lin_val(Ael, bel, xs), Ael)
+        check("f(y)", f, y, _lin_val(Ael, bel, ys), Ael)
+    elif op == "neg":
+        g = -f
+        check("-f", g, x, [-v for v in _lin_val(Ael, bel, xs)], [[-a for a in r] for r in Ael])
+    elif op in ("offset_c", "offset_v"):
+        if op == "offset_c":
+            c = ctx.real("c")
+            cs = [c] * m
+        else:
+            c = ctx.reals("c", m)
+            cs = [ctx.real(f"c{i}") for i in range(m)]
+        g = f.offset(c)
+        check("offset", g, x, [v + cs[i] for i, v in enumerate(_lin_val(Ael, bel, xs))], Ael)
+        if op == "offset_v":
+            check_array(ctx, "offset-untouched", c, cs)
+    elif op == "mul_c":
+        c = ctx.real("c")
+        g = f * c
+        check("f*c", g, x, [c * v for v in _lin_val(Ael, bel, xs)], [[c * a for a in r] for r in Ael])
+    elif op in ("add", "sub"):
+        g, gA, gb, gAel, gbel = _lin(ctx, "g", m, n)
+        sgn = 1 if op == "add" else -1
+        h = f + g if op == "add" else f - g
+        fv, gv = _lin_val(Ael, bel, xs), _lin_val(gAel, gbel, xs)
+        check(op, h, x, [fv[i] + sgn * gv[i] for i in range(m)], [[Ael[i][j] + sgn * gAel[i][j] for j in range(n)] for i in range(m)])
+        check("g after", g, x, gv, gAel)
+        check_array(ctx, "gA-untouched", gA, gAel)
+        check_array(ctx, "gb-untouched", gb, gbel)
+    elif op == "restrict":
+        frozen = list(cfg["frozen"])
+        active = [j for j in range(n) if j not in frozen]
+        fv = ctx.reals("v", len(frozen))
+        fvs = [ctx.real(f"v{k}") for k in range(len(frozen))]
+        g = f.restrict(np.array(frozen, dtype=int), fv)
+        z = ctx.reals("z", len(active))
+        zs = [ctx.real(f"z{k}") for k in range(len(active))]
+        full = [None] * n
+        for k, j in enumerate(active):
+            full[j] = zs[k]
+        for k, j in enumerate(frozen):
+            full[j] = fvs[k]
+        check("restrict", g, z, _lin_val(Ael, bel, full), [[Ael[i][j] for j in active] for i in range(m)])
+        check_array(ctx, "frozen-values-untouched", fv, fvs)
+    elif op == "normalize":
+        from harness.common import build_space
+
+        _no_expr_stub(ctx)
+        ds, info = build_space(ctx, [("x", "float", cfg["layout"])])
+        g = f.normalize(ds)
+        phys = info.phys(ctx, xs)
+        check("normalize", g, x, _lin_val(Ael, bel, phys), [[Ael[i][j] * info.scale(j) for j in range(n)] for i in range(m)])
+        ctx.check("normalize:expects_normalized_inputs", ctx.true() if g.expects_normalized_inputs else ctx.false())
+    else:
+        raise ValueError(op)
+    # the operand still is the function A x + b and the arrays passed by the caller hold the same values
+    check("f after", f, x, _lin_val(Ael, bel, xs), Ael)
+    check_array(ctx, "A-untouched", A, Ael)
+    check_array(ctx, "b-untouched", b, bel)
+    check_array(ctx, "x-untouched", x, xs)
+
+
+def _quad_val(Q, c, d, xs):
+    n = len(xs)
+    return sum((Q[i][j] * xs[i] * xs[j] for i in range(n) for j in range(n)), sum((c[i] * xs[i] for i in range(n)), d))
+
+
+def _quad_grad(Q, c, xs):
+    n = len(xs)
+    return [sum(((Q[i][j] + Q[j][i]) * xs[j] for j in range(n)), c[i]) for i in range(n)]
+
+
+def h_quadratic(ctx, cfg):
+    """MDOQuadraticFunction: value d + c'x + x'Qx and gradient (Q + Q')x + c for a non-symmetric symbolic Q."""
+    from gemseo.core.mdo_functions.mdo_quadratic_function import MDOQuadraticFunction
+
+    n, linear = cfg["n"], cfg["linear"]
+    Q = ctx.matrix("Q", n, n)
+    Qel = [[ctx.real(f"Q{i}_{j}") for j in range(n)] for i in range(n)]
+    d = ctx.real("d")
+    if linear:
+        c = ctx.reals("c", n)
+        cel = [ctx.real(f"c{i}") for i in range(n)]
+    else:
+        c, cel = None, [0.0] * n
+    q = MDOQuadraticFunction(Q, "q", linear_coeffs=c, value_at_zero=d)
+    for nm in ("x", "y"):  # two points: nothing may be remembered from the first evaluation
+        x = ctx.reals(nm, n)
+        xs = [ctx.real(f"{nm}{i}") for i in range(n)]
+        v = q.evaluate(x)
+        ctx.observe(f"value({nm})", np.ravel(v))
+        _check_vec(ctx, f"value({nm})", v, [_quad_val(Qel, cel, d, xs)])
+        g = q.jac(x)
+        ctx.observe(f"jac({nm})", np.ravel(g))
+        check_array(ctx, f"jac({nm})", g, _quad_grad(Qel, cel, xs))
+        check_array(ctx, f"{nm}-untouched", x, xs)
+    check_array(ctx, "Q-untouched", Q, Qel)
+    if linear:
+        check_array(ctx, "c-untouched", c, cel)
+
+
+def _object_empty_stub(ctx, module):
+    """``empty(n)`` of the module under test: an object array (value-preserving storage of the symbols written into it)."""
+    from symgem.core import SymArray
+
+    def empty(shape, *a, **k):
+        return SymArray(np.zeros(shape, dtype=object))
+
+    ctx.patch(module, "empty", empty)
+
+
+def h_restriction(ctx, cfg):
+    """FunctionRestriction of an uninterpreted f: f at the point completed with the frozen values, columns of the active inputs."""
+    import gemseo.core.mdo_functions.function_restriction as fr
+    from gemseo.core.mdo_functions.mdo_function import MDOFunction
+
+    m, n, frozen = cfg["m"], cfg["n"], list(cfg["frozen"])
+    scalar = cfg.get("scalar", False) and m == 1
+    _object_empty_stub(ctx, fr)
+    log = []
+    func, jac, F, dF = uf_function(ctx, "f", m, n, scalar=scalar, log=log)
+    f = MDOFunction(func, "f", jac=jac, dim=m)
+    active = [j for j in range(n) if j not in frozen]
+    fv = ctx.reals("v", len(frozen))
+    fvs = [ctx.real(f"v{k}") for k in range(len(frozen))]
+    r = fr.FunctionRestriction(np.array(frozen, dtype=int), fv, n, f, name="r")
+    for nm in ("z", "w"):
+        z = ctx.reals(nm, len(active))
+        zs = [ctx.real(f"{nm}{k}") for k in range(len(active))]
+        full = [None] * n
+        for k, j in enumerate(active):
+            full[j] = zs[k]
+        for k, j in enumerate(frozen):
+            full[j] = fvs[k]
+        v = r.evaluate(z)
+        ctx.observe(f"value({nm})", np.ravel(v))
+        _check_vec(ctx, f"value({nm})", v, [F[i](*full) for i in range(m)])
+        J = r.jac(z)
+        ctx.observe(f"jac({nm})", np.ravel(J))
+        exp = [[dF[i][j](*full) for j in active] for i in range(m)]
+        if scalar:
+            check_array(ctx, f"jac({nm})", J, exp[0])
+        else:
+            check_array(ctx, f"jac({nm})", J, exp)
+        check_array(ctx, f"{nm}-untouched", z, zs)
+    check_array(ctx, "frozen-values-untouched", fv, fvs)
+    check_log_untouched(ctx, log)
+
+
+def h_composite(ctx, cfg):
+    """LinearCompositeFunction x -> f(Ax): value and the chain rule J_f(Ax) A  (for a 1-D gradient: A' grad f(Ax))."""
+    from gemseo.core.mdo_functions.linear_composite_function import LinearCompositeFunction
+    from gemseo.core.mdo_functions.mdo_function import MDOFunction
+
+    m, k, n = cfg["m"], cfg["k"], cfg["n"]
+    scalar = cfg.get("scalar", False) and m == 1
+    log = []
+    func, jac, F, dF = uf_function(ctx, "f", m, k, scalar=scalar, log=log)
+    f = MDOFunction(func, "f", jac=jac, dim=m)
+    A = ctx.matrix("A", k, n)
+    Ael = [[ctx.real(f"A{i}_{j}") for j in range(n)] for i in range(k)]
+    c = LinearCompositeFunction(f, A)
+    x = ctx.reals("x", n)
+    xs = [ctx.real(f"x{i}") for i in range(n)]
+    ax = [sum((Ael[l][j] * xs[j] for j in range(n)), 0.0) for l in range(k)]
+    v = c.evaluate(x)
+    ctx.observe("value", np.ravel(v))
+    _check_vec(ctx, "value", v, [F[i](*ax) for i in range(m)])
+    J = c.jac(x)
+    ctx.observe("jac", np.ravel(J))
+    exp = [[sum((dF[i][l](*ax) * Ael[l][j] for l in range(k)), 0.0) for j in range(n)] for i in range(m)]
+    _check_jac(ctx, "jac", J, exp, m)
+    check_array(ctx, "A-untouched", A, Ael)
+    check_array(ctx, "x-untouched", x, xs)
+    check_log_untouched(ctx, log)
+
+
+def h_concatenate(ctx, cfg):
+    """Concatenate of functions with output sizes cfg["dims"] (0 = a function returning a scalar and a 1-D gradient)."""
+    from gemseo.core.mdo_functions.concatenate import Concatenate
+    from gemseo.core.mdo_functions.mdo_function import MDOFunction
+
+    n, dims = cfg["n"], cfg["dims"]
+    log = []
+    parts = []
+    for k, dk in enumerate(dims):
+        mk = max(dk, 1)
+        func, jac, F, dF = uf_function(ctx, f"f{k}", mk, n, scalar=dk == 0, log=log)
+        parts.append((MDOFunction(func, f"f{k}", jac=jac, dim=mk), F, dF, mk))
+    c = Concatenate([p[0] for p in parts], "c")
+    for nm in ("x", "y"):
+        x = ctx.reals(nm, n)
+        xs = [ctx.real(f"{nm}{i}") for i in range(n)]
+        v = c.evaluate(x)
+        ctx.observe(f"value({nm})", np.ravel(v))
+        check_array(ctx, f"value({nm})", v, [F[i](*xs) for (_, F, dF, mk) in parts for i in range(mk)])
+        J = c.jac(x)
+        ctx.observe(f"jac({nm})", np.ravel(J))
+        check_array(ctx, f"jac({nm})", J, [[dF[i][j](*xs) for j in range(n)] for (_, F, dF, mk) in parts for i in range(mk)])
+        check_array(ctx, f"{nm}-untouched", x, xs)
+    ctx.check("dim", ctx.true() if c.dim == sum(p[3] for p in parts) else ctx.false())
+    check_log_untouched(ctx, log)
+
+
+def h_taylor(ctx, cfg):
+    """First- and second-order Taylor polynomials at a symbolic expansion point x0, evaluated at a symbolic x."""
+    from gemseo.core.mdo_functions.mdo_function import MDOFunction
+    from gemseo.core.mdo_functions.taylor_polynomials import compute_linear_approximation, compute_quadratic_approximation
+
+    m, n, order = cfg["m"], cfg["n"], cfg["order"]
+    scalar = cfg.get("scalar", False) and m == 1
+    _no_expr_stub(ctx)
+    _no_quad_expr_stub(ctx)
+    log = []
+    func, jac, F, dF = uf_function(ctx, "f", m, n, scalar=scalar, log=log)
+    f = MDOFunction(func, "f", jac=jac, dim=m)
+    x0 = ctx.reals("a", n)
+    x0s = [ctx.real(f"a{i}") for i in range(n)]
+    x = ctx.reals("x", n)
+    xs = [ctx.real(f"x{i}") for i in range(n)]
+    dx = [xs[j] - x0s[j] for j in range(n)]
+    f0 = [F[i](*x0s) for i in range(m)]
+    J0 = [[dF[i][j](*x0s) for j in range(n)] for i in range(m)]
+    if order == 1:
+        t = compute_linear_approximation(f, x0)
+        v = t.evaluate(x)
+        ctx.observe("value", np.ravel(v))
+        _check_vec(ctx, "value", v, [sum((J0[i][j] * dx[j] for j in range(n)), f0[i]) for i in range(m)])
+        J = t.jac(x)
+        ctx.observe("jac", np.ravel(J))
+        _check_jac(ctx, "jac", J, J0, m)
+    else:
+        if cfg["symmetric"]:
+            up = {(i, j): ctx.real(f"H{i}_{j}") for i in range(n) for j in range(i, n)}
+            Hel = [[up[(min(i, j), max(i, j))] for j in range(n)] for i in range(n)]
+        elif cfg.get("concrete_H"):
+            # a fixed non-symmetric matrix: with a symbolic one z3 does not find the counterexample on the current code for n = 3
+            Hel = [[float(v) for v in r[:n]] for r in ([1, 2, 0], [0, 3, -1], [4, 1, 2])[:n]]
+        else:
+            Hel = [[ctx.real(f"H{i}_{j}") for j in range(n)] for i in range(n)]
+        H = ctx.array([list(r) for r in Hel])
+        t = compute_quadratic_approximation(f, x0, H)
+        v = t.evaluate(x)
+        ctx.observe("value", np.ravel(v))
+        half = 0.5
+        quad = sum((Hel[i][j] * dx[i] * dx[j] for i in range(n) for j in range(n)), 0.0)
+        _check_vec(ctx, "value", v, [f0[0] + sum((J0[0][j] * dx[j] for j in range(n)), 0.0) + half * quad])
+        g = t.jac(x)
+        ctx.observe("jac", np.ravel(g))
+        # exact gradient of the documented polynomial: grad f(x0) + 1/2 (H + H')(x - x0)
+        check_array(ctx, "jac", g, [J0[0][i] + half * sum(((Hel[i][j] + Hel[j][i]) * dx[j] for j in range(n)), 0.0) for i in range(n)])
+        check_array(ctx, "H-untouched", H, Hel)
+    check_array(ctx, "x0-untouched", x0, x0s)
+    check_array(ctx, "x-untouched", x, xs)
+    check_log_untouched(ctx, log)
+
+
+# ------------------------------------------------------------------------------------------------
+# constraint aggregations
+# ------------------------------------------------------------------------------------------------
+AGG = {  # method: (value function, total Jacobian, partial Jacobian, public wrapper, constraint type, has rho)
+    "max": ("compute_max_agg", "compute_max_agg_jac", None, "aggregate_max", "ineq", False),
+    "sum_square": ("compute_sum_square_agg", "compute_total_sum_square_agg_jac", "compute_partial_sum_square_agg_jac", "aggregate_sum_square", "eq", False),
+    "pos_sum_square": ("compute_sum_positive_square_agg", "compute_total_sum_square_positive_agg_jac", "compute_partial_sum_positive_square_agg_jac",
+                       "aggregate_positive_sum_square", "ineq", False),
+    "ks_upper": ("compute_upper_bound_ks_agg", "compute_total_ks_agg_jac", "compute_partial_ks_agg_jac", "aggregate_upper_bound_ks", "ineq", True),
+    "ks_lower": ("compute_lower_bound_ks_agg", "compute_total_ks_agg_jac", "compute_partial_ks_agg_jac", "aggregate_lower_bound_ks", "ineq", True),
+    "iks": ("compute_iks_agg", "compute_total_iks_agg_jac", "compute_partial_iks_agg_jac", "aggregate_iks", "ineq", True),
+}
+
+
+def _sym(v):
+    from symgem.core import SymReal, lift
+
+    return v if isinstance(v, SymReal) else SymReal(lift(v))
+
+
+def _exp(ctx, v):
+    if ctx.symbolic:
+        from symgem.core import sym_exp
+
+        return sym_exp(_sym(v))
+    import math
+
+    return math.exp(v)
+
+
+def _log(ctx, v):
+    if ctx.symbolic:
+        from symgem.core import sym_log
+
+        return sym_log(_sym(v))
+    import math
+
+    return math.log(v)
+
+
+def _eq_rat(ctx, a, b):
+    """a == b for rational expressions; symbolically the cross-multiplied polynomial identity is offered as a sufficient condition
+    (symgem.diff.cross_equal: F => a == b, so ``F or a == b`` is equivalent to ``a == b``)."""
+    if ctx.symbolic:
+        from symgem.diff import cross_equal
+
+        return ctx.or_(cross_equal(a, b), ctx.eq(a, b))
+    return ctx.eq(a, b)
+
+
+def _agg_stubs(ctx):
+    """math.log -> the engine's uninterpreted log; zeros -> object zeros (both value-preserving), in aggregation/core.py."""
+    import gemseo.algos.aggregation.core as ac
+    from symgem.core import SymArray
+
+    ctx.patch(ac, "log", lambda v: _log(ctx, v))
+    ctx.patch(ac, "zeros", lambda shape, *a, **k: SymArray(np.zeros(shape, dtype=object)))
+
+
+def h_aggregation(ctx, cfg):
+    """Constraint aggregations: raw functions of aggregation/core.py (api core/partial) and the aggregate_* wrappers (api func)."""
+    import gemseo.algos.aggregation.aggregation_func as af
+    import gemseo.algos.aggregation.core as ac
+    from gemseo.core.mdo_functions.mdo_function import MDOFunction
+
+    method, m, n, api = cfg["method"], cfg["m"], cfg["n"], cfg["api"]
+    skind, indices, rho = cfg["scale"], cfg["indices"], cfg.get("rho")
+    f_val, f_jac, f_partial, f_wrap, ftype, has_rho = AGG[method]
+    _agg_stubs(ctx)
+    I = list(indices) if indices is not None else list(range(m))
+    k = len(I)
+    kw = {}
+    if indices is not None:
+        kw["indices"] = list(indices)
+    if has_rho:
+        kw["rho"] = float(rho)
+    # scale: absent (1.0), a positive number (symbolic, or 2), or a positive vector with one entry per aggregated constraint (symbolic,
+    # or [2, 3, 1/4]).  The "operands untouched" obligations are stated where the scale is concrete: they are refuted on the current
+    # code and z3 does not find the (non-linear) counterexamples within the budget when the scale is symbolic.
+    svec = None
+    if skind == "one":
+        sc = [1.0] * k
+    elif skind in ("scalar", "scalar_c"):
+        if skind == "scalar":
+            s = ctx.real("s")
+            ctx.assume(s > 0)
+        else:
+            s = 2.0
+        kw["scale"] = s
+        sc = [s] * k
+    elif skind == "vector":
+        svec = ctx.reals("s", k)
+        sc = [ctx.real(f"s{i}") for i in range(k)]
+        for v in sc:
+            ctx.assume(v > 0)
+        kw["scale"] = svec
+    else:
+        sc = [2.0, 3.0, 0.25][:k]
+        svec = ctx.array(list(sc))
+        kw["scale"] = svec
+    untouched = skind in ("one", "scalar_c", "vector_c")
+
+    log = []
+    if api == "func":
+        func, jac, F, dF = uf_function(ctx, "g", m, n, log=log)
+        x = ctx.reals("x", n)
+        xs = [ctx.real(f"x{i}") for i in range(n)]
+        g = [F[i](*xs) for i in range(m)]
+        Jg = [[dF[i][j](*xs) for j in range(n)] for i in range(m)]
+        agg = getattr(af, f_wrap)(MDOFunction(func, "g", f_type=ftype, jac=jac, dim=m), **kw)
+    else:
+        g = [ctx.real(f"g{i}") for i in range(m)]
+        Jg = [[ctx.real(f"J{i}_{j}") for j in range(n)] for i in range(m)]
+
+    lab = method
+    callers = []  # (label, array, expected elements) of the arrays handed over to the code under test
+
+    def vals():
+        a = ctx.array(list(g))
+        callers.append(("caller-values", a, list(g)))
+        return a
+
+    def jacs():
+        a = ctx.array([list(r) for r in Jg])
+        callers.append(("caller-jac", a, [v for r in Jg for v in r]))
+        return a
+
+    def check_untouched(stage):
+        """The arrays handed over so far (caller's arrays / arrays returned by the constraint function) hold their original values."""
+        if not untouched:
+            return
+        for nm, a, exp in callers:
+            for i, (now, orig) in enumerate(zip(elems(a), exp)):
+                ctx.check(f"{lab}:{nm}-untouched after {stage}[{i}]", ctx.eq(now, orig))
+        check_log_untouched(ctx, log, label=f"{lab}:operand-untouched after {stage}")
+        del callers[:], log[:]
+
+    sg = [sc[q] * g[I[q]] for q in range(k)]                       # the scaled aggregated constraints
+    sJ = [[sc[q] * Jg[I[q]][j] for j in range(n)] for q in range(k)]  # and their Jacobian rows
+    # the maximum of the scaled constraints: the path forks on the comparisons (as the code's own max() does), so M is one of the sg
+    amax = 0
+    for q in range(1, k if has_rho else 0):
+        if sg[q] > sg[amax]:
+            amax = q
+    M = sg[amax]  # (used by the KS/IKS oracles only)
+
+    # ---- value ------------------------------------------------------------------------------------------------
+    if api == "func":
+        value = agg.evaluate(x)
+    else:
+        value = getattr(ac, f_val)(vals(), **kw)
+    if not has_rho:  # exp/log are uninterpreted: their values under a solver model are not comparable with float64 runs
+        ctx.observe("value", np.ravel(value))
+    ve = elems(value)
+    ctx.check(f"{lab}:value is one number", ctx.true() if len(ve) == 1 else ctx.false())
+    v = ve[0]
+    readings = None  # for the sums of squares: [(value, d value / d g_q, ...)] for the admissible readings of "scale"
+    if method == "max":
+        ctx.check(f"{lab}:value >= every constraint", ctx.and_(*[ctx.le(t, v) for t in sg]))
+        ctx.check(f"{lab}:value is one of the constraints", ctx.or_(*[ctx.eq(v, t) for t in sg]))
+    elif method in ("sum_square", "pos_sum_square"):
+        p = [g[I[q]] if method == "sum_square" else ctx.ite(ctx.lt(0.0, g[I[q]]), g[I[q]], 0.0) for q in range(k)]
+        # "scale: the scaling factor for multiplying the constraints": sum s_q p_q^2 (what the code does) and sum (s_q p_q)^2 are both accepted
+        readings = [(sum((sc[q] * p[q] * p[q] for q in range(k)), 0.0), [2.0 * sc[q] * p[q] for q in range(k)])]
+        if skind != "one":
+            readings.append((sum((sc[q] * p[q] * sc[q] * p[q] for q in range(k)), 0.0), [2.0 * sc[q] * sc[q] * p[q] for q in range(k)]))
+        ctx.check(f"{lab}:value", ctx.or_(*[ctx.eq(v, r[0]) for r in readings]))
+    else:
+        e = [_exp(ctx, rho * (sg[q] + 1.0 - M)) for q in range(k)]
+        S = sum(e[1:], e[0])
+        w = [e[q] / S for q in range(k)]
+        if method == "iks":
+            N = sum((sg[q] * e[q] for q in range(k)), 0.0)
+            ctx.check(f"{lab}:value", _eq_rat(ctx, v, N / S))
+        elif (1.0 / rho) * rho == 1.0 and float(rho).hex().startswith("0x1.0000000000000p"):
+            # bounds only when 1/rho is exact in float64 (a power of two): float arithmetic is modelled as exact real arithmetic
+            E = _exp(ctx, float(rho))
+            lE = _log(ctx, E)                                   # ground instance: log(exp(rho)) == rho (engine axiom)
+            T = _log(ctx, k * E)
+            lk = _log(ctx, float(k)) if k > 1 else 0.0
+            ctx.assume(ctx.eq(lE, float(rho)))
+            ctx.assume(ctx.eq(T, lk + float(rho)))           # ground instance of log(a b) = log a + log b, a mathematical identity
+            if method == "ks_upper":
+                ctx.check(f"{lab}:max <= value", ctx.le(M, v))
+                ctx.check(f"{lab}:value <= max + log(k)/rho", ctx.le(v, M + lk / float(rho)))
+            else:
+                lm = _log(ctx, float(m))
+                ctx.check(f"{lab}:value <= max", ctx.le(v, M))
+                ctx.check(f"{lab}:max - log(m)/rho <= value", ctx.le(M - lm / float(rho), v))
+        ctx.check(f"{lab}:weights >= 0", ctx.and_(*[ctx.le(0.0, t) for t in w]))
+        ctx.check(f"{lab}:weights sum to 1", _eq_rat(ctx, sum(w[1:], w[0]), 1.0))
+
+    check_untouched("value")
+    if api == "core" and untouched and not has_rho:  # a caller evaluating twice with the same array gets the same result
+        a = ctx.array(list(g))
+        first = elems(getattr(ac, f_val)(a, **kw))
+        second = elems(getattr(ac, f_val)(a, **kw))
+        ctx.check(f"{lab}:repeat: same array, same value", ctx.eq(first[0], second[0]))
+
+    # d aggregate / d g_{I[q]} for q < k (None for max: row of the arg max)
+    if method in ("ks_upper", "ks_lower"):
+        partial = [[w[q] * sc[q] for q in range(k)]]
+    elif method == "iks":
+        dN = [sc[q] * e[q] + sg[q] * e[q] * rho * sc[q] for q in range(k)]
+        dS = [rho * sc[q] * e[q] for q in range(k)]
+        partial = [[(dN[q] * S - N * dS[q]) / (S * S) for q in range(k)]]
+    elif readings is not None:
+        partial = [r[1] for r in readings]
+    else:
+        partial = None
+
+    # ---- Jacobian ---------------------------------------------------------------------------------------------
+    if api == "partial":
+        got = getattr(ac, f_partial)(vals(), **kw)
+        if not has_rho:
+            ctx.observe("partial", np.ravel(got))
+        ge = elems(got)
+        ctx.check(f"{lab}:partial has m entries", ctx.true() if len(ge) == m else ctx.false())
+        if len(ge) == m:
+            for i in range(m):
+                if i in I:
+                    q = I.index(i)
+                    if readings is None:
+                        ctx.check(f"{lab}:partial[{i}]", _eq_rat(ctx, ge[i], partial[0][q]))
+                    else:
+                        ctx.check(f"{lab}:partial[{i}]", ctx.or_(*[ctx.and_(ctx.eq(v, r[0]), ctx.eq(ge[i], pr[q])) for r, pr in zip(readings, partial)]))
+                else:
+                    ctx.check(f"{lab}:partial[{i}]", ctx.eq(ge[i], 0.0))
+    else:
+        if api == "func":
+            got = agg.jac(x)
+        else:
+            got = getattr(ac, f_jac)(vals(), jacs(), **kw)
+        if not has_rho:
+            ctx.observe("jac", np.ravel(got))
+        ge = elems(got)
+        ctx.check(f"{lab}:jac has n entries", ctx.true() if len(ge) == n else ctx.false())
+        if len(ge) == n:
+            for j in range(n):
+                if method == "max":  # differentiable only where the maximum is attained once: the row of that constraint
+                    for q in range(k):
+                        ctx.check(f"{lab}:jac[{j}] (argmax {q})", ctx.implies(ctx.and_(*[ctx.lt(sg[r], sg[q]) for r in range(k) if r != q]), ctx.eq(ge[j], sJ[q][j])))
+                elif readings is None:
+                    ctx.check(f"{lab}:jac[{j}]", _eq_rat(ctx, ge[j], sum((partial[0][q] * Jg[I[q]][j] for q in range(k)), 0.0)))
+                else:
+                    ctx.check(f"{lab}:jac[{j}]", ctx.or_(*[ctx.and_(ctx.eq(v, r[0]), ctx.eq(ge[j], sum((pr[q] * Jg[I[q]][j] for q in range(k)), 0.0)))
+                                                         for r, pr in zip(readings, partial)]))
+
+    check_untouched("jac")
+    if svec is not None:
+        for i, (now, orig) in enumerate(zip(elems(svec), sc)):
+            ctx.check(f"{lab}:scale-untouched[{i}]", ctx.eq(now, orig))
+    if api == "func":
+        check_array(ctx, "x-untouched", x, xs)
+
+
 def configs(tier):
     out = []
     dims = [(m, n) for m in (1, 2, 3) for n in (1, 2, 3)]
@@ -152,7 +791,88 @@ def configs(tier):
     for (m, n) in dims2:
         for a, b in pairs:
             out.append(("algebra", dict(m=m, n=n, ops=[a, b])))
+    return out + _transformation_configs(tier)
+
+
+FROZEN = {1: [[]], 2: [[], [0], [1]], 3: [[], [0], [1], [2], [0, 1], [2, 0], [1, 2]]}  # every proper subset (two orders for pairs in T)
+LAYOUTS = {1: ["B", "U"], 2: ["BB", "BU", "EL"], 3: ["BUB", "BRE"]}
+
+
+def _transformation_configs(tier):
+    out = []
+    T = tier != "quick"
+    dims = [(m, n) for m in (1, 2, 3) for n in (1, 2, 3)]
+    frozen = {n: list(v) for n, v in FROZEN.items()}
+    if T:
+        frozen[3] = frozen[3] + [[1, 0], [0, 2], [2, 1]]
+        frozen[2] = frozen[2]
+    # linear
+    for (m, n) in dims:
+        for op in ["eval", "neg", "offset_c", "offset_v", "mul_c", "add", "sub"]:
+            out.append(("linear", dict(m=m, n=n, op=op)))
+        for fr in frozen[n]:
+            out.append(("linear", dict(m=m, n=n, op="restrict", frozen=fr)))
+        for lay in LAYOUTS[n]:
+            out.append(("linear", dict(m=m, n=n, op="normalize", layout=lay)))
+    # quadratic
+    for n in (1, 2, 3):
+        for lin in (True, False):
+            out.append(("quadratic", dict(n=n, linear=lin)))
+    # restriction
+    for (m, n) in dims:
+        for fr in frozen[n]:
+            out.append(("restriction", dict(m=m, n=n, frozen=fr)))
+            if m == 1:
+                out.append(("restriction", dict(m=m, n=n, frozen=fr, scalar=True)))
+    # linear composition f(Ax), f: R^k -> R^m, A: k x n
+    for k in (1, 2, 3):
+        for n in (1, 2, 3):
+            out.append(("composite", dict(m=1, k=k, n=n, scalar=True)))
+    vec = [(2, 2, 2), (2, 2, 3), (2, 3, 2), (2, 1, 2), (3, 3, 3), (1, 2, 2), (1, 1, 1), (3, 2, 1)]
+    if T:
+        vec = [(m, k, n) for m in (1, 2, 3) for k in (1, 2, 3) for n in (1, 2, 3)]
+    for (m, k, n) in vec:
+        out.append(("composite", dict(m=m, k=k, n=n)))
+    # concatenation
+    for n in (1, 2, 3):
+        for d in [[0, 0], [0, 2], [2, 0], [1, 1], [3, 1], [0, 0, 0], [0, 2, 1], [2, 0, 3], [1, 0, 2]]:
+            out.append(("concatenate", dict(n=n, dims=d)))
+    # Taylor polynomials
+    for (m, n) in dims:
+        out.append(("taylor", dict(m=m, n=n, order=1)))
+        if m == 1:
+            out.append(("taylor", dict(m=m, n=n, order=1, scalar=True)))
+    for n in (1, 2, 3):  # "the function must be scalar-valued": a function returning a number and a 1-D gradient
+        for sym in (True, False):
+            if n > 1 or sym:
+                out.append(("taylor", dict(m=1, n=n, order=2, scalar=True, symmetric=sym, concrete_H=(not sym and n == 3))))
+    # aggregations
+    subset = {2: [[1]], 3: [[2, 0]]} if not T else {2: [[1], [0]], 3: [[2, 0], [1], [0, 1]]}
+    for method, spec in AGG.items():
+        rhos = [2.0] if spec[5] else [None]
+        for rho in rhos:
+            for api in ("core", "func", "partial"):
+                if api == "partial" and spec[2] is None:
+                    continue
+                mn = [(2, 1), (3, 1)] if api == "partial" else [(2, 2), (3, 2), (2, 3), (3, 3)] + ([(2, 1), (3, 1)] if T else [])
+                for (m, n) in mn:
+                    # vector scale: symbolic where the obligations hold on the current code, concrete for the total Jacobians of max/KS/IKS
+                    vec = "vector" if (api == "partial" or method in ("sum_square", "pos_sum_square")) else "vector_c"
+                    for scale in ("one", "scalar", "scalar_c", vec):
+                        for ind in [None] + subset[m]:
+                            if method == "iks" and scale == "vector_c" and len(ind or range(m)) == n:
+                                # the obligations on the total Jacobian are refuted on the current code (vector scale applied to the columns) but z3
+                                # does not find the counterexample within the budget (products of exp terms and Jacobian entries): left out
+                                continue
+                            out.append(("aggregation", dict(method=method, m=m, n=n, api=api, scale=scale, indices=ind, rho=rho)))
+        if spec[5]:  # other aggregation parameters: 64 (1/rho exact: bounds checked) and the default 100 (bounds skipped, see META)
+            for rho in (64.0, 100.0):
+                for api, (m, n) in (("core", (3, 2)), ("func", (2, 2)), ("partial", (3, 1))):
+                    for scale in ("one", "scalar"):
+                        for ind in [None] + subset[m][:1]:
+                            out.append(("aggregation", dict(method=method, m=m, n=n, api=api, scale=scale, indices=ind, rho=rho)))
     return out
 
 
-HARNESSES = {"algebra": h_algebra}
+HARNESSES = {"algebra": h_algebra, "linear": h_linear, "quadratic": h_quadratic, "restriction": h_restriction, "composite": h_composite,
+             "concatenate": h_concatenate, "taylor": h_taylor, "aggregation": h_aggregation}
